@@ -97,6 +97,16 @@ inductive DepthArg where
   | notChildren      -- `shallow=not children`
   deriving DecidableEq, Repr, Inhabited
 
+/-- how an entry point names the *source* of the HDF5 copy, given the handle (`obj` / `copy_from`) -/
+inductive SrcAddr where
+  /-- `src = obj._h5group.group` handed to `obj._h5group.copy(source=src, …)`: the HDF5 object the
+  handle stands for, whichever way the handle was fetched -/
+  | object
+  /-- `src = "{}/{}".format(clsname, obj.name)` handed to `obj._parent._h5group.copy(source=src, …)`:
+  a path, resolved by HDF5 below the group of the handle's `_parent` -/
+  | parentPath
+  deriving DecidableEq, Repr, Inhabited
+
 /-- one copy entry point: `isinstance` test, destination container, default name, duplicate test,
 the arguments handed to `H5Group.copy`, the re-adding loop of shallow section copies, the result -/
 structure CallerShape where
@@ -117,6 +127,8 @@ structure CallerShape where
   readdsProps : Bool
   /-- the result is fetched from the destination container by the name of the copy -/
   returnsByName : Bool
+  /-- how the source of the HDF5 copy is named (interpreted by `Store/CopyHandle.lean`) -/
+  srcAddr : SrcAddr
   deriving DecidableEq, Repr, Inhabited
 
 /-- the `shallow=` argument handed to `H5Group.copy` -/
